@@ -193,13 +193,14 @@ def classify(case, failure):
     floored at zero by the offset is ended like a never-cleared caption: at the next caption's start or after
     four seconds."""
     if failure.get('what', '').startswith('caption start/end is not the transmission instant') \
-            and case['offset'] and failure.get('expected_start') == 0.0 and failure.get('expected_end') == [0.0] \
+            and case['offset'] and failure.get('expected_start') == 0.0 and failure.get('expected_end') \
+            and all(e == 0.0 for e in failure['expected_end']) \
             and isinstance(failure.get('got'), list) and failure['got'][0] == 0 and failure['got'][1] > 0:
         return 'scc-caption-cleared-before-the-offset-gets-a-later-end'
     # ... and when that later end is the next caption's start a few frames after the offset, the caption is
     # rejected as displayed for less than 0.05 s
     if failure.get('what', '').startswith('timing error raised although no caption') and case['offset'] \
-            and any(m[0] == 0.0 and m[1] == [0.0] for m in failure.get('model', [])) \
+            and any(m[0] == 0.0 and m[1] and all(e == 0.0 for e in m[1]) for m in failure.get('model', [])) \
             and 'around 00:00:00.000' in failure.get('error', ''):
         return 'scc-caption-cleared-before-the-offset-gets-a-later-end'
     return None
